@@ -300,11 +300,11 @@ func (m *vMachine) runScript(regs []vRegion, ks, ke uint64, script [][]int, rng 
 			res = m.doFree(f)
 		case 3:
 			for i := 0; i < 100000; i++ {
-				if res = alloc(); res != "ok" {
+				if res = alloc(); res != "ok" || m.lockHeld() {
 					break
 				}
 			}
-			if res == "oom" {
+			if res == "oom" && !m.lockHeld() {
 				res = alloc() // out-of-memory must be stable
 			}
 		case 5: // free an absolute frame number (model scripts and replays)
@@ -326,16 +326,20 @@ func (m *vMachine) runScript(regs []vRegion, ks, ke uint64, script [][]int, rng 
 				f := held[j]
 				held = append(held[:j], held[j+1:]...)
 				freed = append(freed, f)
-				if res = m.doFree(f); res == "panic" {
+				if res = m.doFree(f); res == "panic" || m.lockHeld() {
 					break
 				}
 			}
 		}
-		if res == "panic" {
-			break
+		if res == "panic" || m.lockHeld() {
+			break // a panic ends the history; so does a lock left held: the next call would spin forever
 		}
 	}
 	m.emit(vEv{"k": "reset"})
+}
+
+func (m *vMachine) lockHeld() bool {
+	return *(*uint32)(unsafe.Pointer(&bitmapAllocator.mutex)) != 0
 }
 
 func (m *vMachine) runBoot(regs []vRegion, ks, ke uint64, extra int) {
@@ -523,6 +527,34 @@ func vRandomMap(rng *rand.Rand) (regs []vRegion, ks, ke uint64, ok bool) {
 	return regs, ks, ke, true
 }
 
+// vBigMap: a first available region of only 1-2 frames followed (after an optional reserved hole) by a region so
+// large that the allocator's own tables need several pages: the early-boot allocations then span two pools.
+func vBigMap(rng *rand.Rand) (regs []vRegion, ks, ke uint64) {
+	cur := uint64(1+rng.Intn(3)) * 0x1000
+	small := uint64(1+rng.Intn(2)) * 4096
+	if rng.Intn(2) == 0 {
+		cur += uint64(rng.Intn(4096))
+		small += 4096
+	}
+	regs = append(regs, vRegion{cur, small, 1})
+	cur += small
+	if rng.Intn(2) == 0 {
+		hole := uint64(1+rng.Intn(3))*4096 + uint64(rng.Intn(4096))
+		regs = append(regs, vRegion{cur, hole, uint32(2 + rng.Intn(3))})
+		cur += hole
+	}
+	big := []uint64{32769, 33000, 40000, 65536, 65537, 70000, 98305}[rng.Intn(7)]
+	regs = append(regs, vRegion{cur, big * 4096, 1})
+	first := (cur + 4095) &^ 4095
+	koff := uint64(rng.Intn(8))
+	if rng.Intn(3) == 0 {
+		koff = 0
+	}
+	ks = first + koff*4096
+	ke = ks + uint64(1+rng.Intn(3))*4096 - uint64(rng.Intn(4095))
+	return regs, ks, ke
+}
+
 // leg T: seeded random maps and histories at real scale.
 func TestVerifPmmRandom(t *testing.T) {
 	out, rng, _ := vOpen(t)
@@ -539,12 +571,30 @@ func TestVerifPmmRandom(t *testing.T) {
 			tr--
 			continue
 		}
+		bigmap := mode != "boot" && tr%10 == 3
+		if bigmap {
+			regs, ks, ke = vBigMap(rng)
+		}
 		if mode == "boot" {
 			m.runBoot(regs, ks, ke, 1+rng.Intn(3))
 			continue
 		}
 		var script [][]int
 		nops := 10 + rng.Intn(120)
+		if bigmap { // no drains on pools of 10^4..10^5 frames: a short history is enough
+			for i := 0; i < 40; i++ {
+				switch r := rng.Intn(10); {
+				case r < 6:
+					script = append(script, []int{0})
+				case r < 8:
+					script = append(script, []int{1, rng.Intn(1 << 20)})
+				default:
+					script = append(script, []int{2, rng.Intn(5)})
+				}
+			}
+			m.runScript(regs, ks, ke, script, rng)
+			continue
+		}
 		if rng.Intn(3) == 0 {
 			script = append(script, []int{3}) // drain first
 		}
